@@ -163,7 +163,7 @@ def run(ctx):
             for (sw, kind, text, truth) in ds:
                 if kind == "call" and re.search(r"StreamFrame::is_fin$", text) and truth is True:
                     continue
-                if kind == "call" and re.search(r"PartialEq(<.*>)?::(ne|eq)$", text):
+                if kind == "call" and re.search(r"PartialEq(<.*>)?>?::(ne|eq)$", text):
                     # comparison of fin_state with a constant state
                     cmp_fin = False
                     for ci, ct in b.calls():
